@@ -13,6 +13,9 @@ Inv_C01 == \A s \in StepsOf :
   /\ \A i \in 1..Len(Ip(s)) : Ip(s)[i].wid \in 0..(R!Nw(s) - 1)
   /\ Cardinality({t \in tasks : t.step = s}) + Cardinality({i \in 1..Len(pend) : pend[i].step = s}) <= R!Nw(s)
 
+(* C02 *)
+Inv_C02 == ~mon.baddeliv
+
 (* C03 (a): at the points where the loop blocks, waiting work means the step is at capacity *)
 Inv_C03a == (Live /\ bs.running /\ phase = "wait") =>
               \A s \in StepsOf : Q(s) # <<>> => Len(Ip(s)) = R!Nw(s)
